@@ -7,8 +7,9 @@ PROP = {
             "arrays of length 4 in the []any representation only) x 20 filter calls (compact reverse first last uniq size, concat with "
             "five arguments, join with three separators, map: k/size, sort, sort: k, sort_natural, sort_natural: k) x up to seven Go "
             "representations ([]any, typed slice, typed and untyped fixed array, range for a run of ints, yaml.MapSlice, "
-            "map[string]any in key order); every array of length 0..3 over nine map/non-map elements with present, absent and nil "
-            "keys x 25 calls (sort / sort_natural / map with present, absent, non-string and array keys); 60 boundary receivers (nil, "
+            "map[string]any in key order); every array of length 0..3 over twelve map/non-map elements with present, absent and nil "
+            "keys x 27 calls (sort / sort_natural / map with present, absent, non-string and array keys; uniq compact reverse first "
+            "last join size); 54 boundary receivers (nil, "
             "strings, numbers, structs, empty, reversed and over-long ranges, nested arrays, drops and drops of drops inside arrays, "
             "typed containers with nil, maps with nil values, []byte, every integer width, integers beyond 2^53 next to floats, "
             "non-ASCII strings) x 32 calls including arity errors; arrays of 13..3000 elements; random arrays to length 8 x random "
@@ -62,20 +63,27 @@ PROP = {
 TEXT = {
     "text": "Theorems for every list (no bound): Go's insertion sort (all of sort.Sort up to 12 elements, modelled loop by loop) "
             "returns a permutation and is stable for EVERY comparator, sorts whenever the comparator is a strict weak order on the "
-            "elements, and then equals List.mergeSort; a comparator that panics or is outside the model matters exactly when the "
-            "comparison is made. sort returns a permutation of its input (any array, any length) that is ascending for "
+            "elements, and then equals List.mergeSort; over a comparator that may panic or be outside the model the sort, whenever "
+            "it answers, answers a permutation, and is the insertion sort when the comparator answers on all pairs of elements "
+            "(insertionSort_partial; that an unanswered comparison is harmless when it is not made is shown by examples only). "
+            "sort (sortF: the insertion sort up to 12 elements, beyond that List.mergeSort as a stand-in for Go's pdqsort, see the "
+            "trusted base) returns a permutation of its input (any array, any length) that is ascending for "
             "values.Less on every homogeneous array (all integers, all numbers with integers inside 2^53, all strings, all "
             "booleans) -- totality and transitivity of the order are proved per kind; up to 12 elements the model answers every "
             "array, mixed kinds included, with exactly Go's list (sort_model), and the sort is stable; sort: key is a permutation, "
-            "ascending in the key, with entries lacking the key (or holding nil) first, likewise exact and stable up to 12 elements; "
+            "exact and stable up to 12 elements on every array, and -- when the non-nil keys are homogeneous (homogBy) -- "
+            "ascending in the key with entries lacking the key (or holding nil) first; "
             "sort_natural is a permutation ascending in its case-folded text, stable up to 12 elements; reverse reverses; uniq is a sublist with pairwise different elements (Go equality: 1 and 1.0 "
             "differ), represents every input element, and keeps an appended element exactly when nothing equal precedes it; compact "
-            "removes exactly the nils; concat appends; first/last agree with a[0]/a[-1] and a.first/a.last (nil when empty); size "
-            "is the element count (also of a range); join is the separator-intercalated fmt.Sprint of the non-nil elements; map is "
-            "the per-element property lookup; typed slices, fixed arrays, ranges, ordered maps and maps convert to the same "
+            "removes exactly the nils; concat is ++ by definition (concat_spec, rfl); first/last agree with a[0]/a[-1] and a.first/a.last (nil when empty); size "
+            "is the element count (of a range a..b when a <= b and b - a < MaxInt64); join is the separator-intercalated fmt.Sprint of "
+            "the non-nil elements when fmt.Sprint of each is modelled; map is the per-element property lookup when every lookup "
+            "returns a value; typed slices, fixed arrays, ranges, ordered maps and maps convert to the same "
             "[]any as a generic slice with the same contents (drops inside resolved, nil kept); compact/reverse/first/last/uniq "
-            "are proved through ApplyFilter/Call with the standard filter table, a nil receiver is the empty array and a "
-            "non-array receiver a TypeError; sort through ApplyFilter/Call is sortF on every receiver of up to 12 elements. The model "
+            "are proved through ApplyFilter/Call with the standard filter table for a non-nil receiver that converts to an array; "
+            "a nil receiver is the empty array for compact, reverse, first and uniq (nil_receiver); the conversion of a string, "
+            "number or boolean receiver to []any is a TypeError (non_array_receiver, a statement about convert); sort through "
+            "ApplyFilter/Call is sortF on every receiver of up to 12 elements. The model "
             "is compared with the real code on every case (sort results element by element up to 12 elements); an independent oracle "
             "(reference implementations over value trees) checks permutation, order, nil-keys-first, every other filter's exact "
             "result, agreement of all representations, and that neither the Go value passed in nor a second rendering of it changes. "
